@@ -135,6 +135,14 @@ def add(ro, msg, via='add'):
         # the library never relies on deprecated behaviour: a DeprecationWarning (e.g. Element truth-testing, which
         # raises under -W error and in future interpreters) is reported as what it becomes there - an exception
         warnings.filterwarnings('error', category=DeprecationWarning)
+        if len(str(msg)) % 3 == 1:
+            # a caller looks at the running order's timing right before it adds the message - in the same warnings context:
+            # nothing the library does while answering may silence what the merge reports
+            for read_ in (lambda: ro.start_time, lambda: ro.duration, lambda: [s_.offset for s_ in ro.stories]):
+                try:
+                    read_()
+                except Exception:  # noqa: BLE001 - what the accessors do with odd timing is C15's
+                    pass
         try:
             r = (ro + msg) if via == 'add' else msg.merge(ro)
             if r is not ro:
